@@ -140,6 +140,20 @@ def primitive_steps(name, doc, pool, rnd, n=120):
         else:
             attr = rnd.choice(list(doc.attrs) or ["meta"])
             out.append((f"DocAttrStep({attr})", DocAttrStep(attr, rnd.choice([1, "x", None]))))
+    # "typing": a closed slice holding one (marked) text node put strictly inside, at the start and at the end of
+    # text nodes - the flat branch of replace_outer, where only close() stands between a mark the parent forbids
+    # (code_block, a heading with a restricted mark set) and the document
+    texts = []
+    doc.descendants(lambda node, pos, *_: (texts.append((pos, node.node_size)) if node.is_text else None) or True)
+    rnd.shuffle(texts)
+    for pos, sz in texts[:4]:
+        for m in [None] + rnd.sample(marks, min(3, len(marks))):
+            sl = Slice(Fragment([D.mk_text(S, "X", [m] if m is not None else [])], 1), 0, 0)
+            offs = {pos, pos + sz} | ({pos + 1, pos + sz - 1} if sz >= 2 else set())
+            for a in sorted(offs):
+                out.append((f"typing ReplaceStep({a},{a},<{'' if m is None else m.type.name}:X>)", ReplaceStep(a, a, sl)))
+            if sz >= 3:
+                out.append((f"typing-over ReplaceStep({pos + 1},{pos + sz - 1},<{'' if m is None else m.type.name}:X>)", ReplaceStep(pos + 1, pos + sz - 1, sl)))
     # structured replace-around steps: wrappers around every top-level-ish block range
     for tname, nt in O.nodes.items():
         if nt.is_leaf or nt.is_text or nt.has_required_attrs() or tname == O.top:
